@@ -26,8 +26,6 @@ BACKENDS = CRATES[1:]
 TEST_LANGS = ["rust", "c", "cpp", "csharp", "go", "moonbit", "d"]  # crates/test/src/<lang>.rs; markdown has none
 GAPS = ("todo", "unimplemented")
 DIVERGE = ("todo", "unimplemented", "panic", "unreachable")
-ENTRY_ROOT_HINT = ("call", "lower_to_memory", "lower_flat", "lift_from_memory", "post_return",
-                   "deallocate_lists_in_types", "deallocate_lists_and_own_in_types")
 
 # number of sites confirmed by reading the tree (2026-09): floors
 FLOOR_TOTAL = 139
@@ -117,6 +115,23 @@ NO_WORLD_RES = ("wit-parser never puts a type into World::exports ('exported typ
 DEAD_BUILTIN = "InterfaceGenerator::type_builtin has no caller in the workspace (define_type dispatches Type(_) to type_alias)"
 FLAGS32 = ("a valid component has 1..=32 flags (wasmparser: 'flags must have at least one entry', 'cannot have more "
            "than 32 flags'), so Flags::repr() is U8, U16 or U32(1)")
+NAMED_KINDS = ("records, resources, flags, enums and variants always carry a name in WIT and the function returns early "
+               "for named types (`if let Some(name) = &ty.name { return .. }`)")
+ANON_TYPE = ("wit-parser's anon_type_def returns the aliased type for TypeDefKind::Type instead of allocating an anonymous "
+             "typedef, so no anonymous typedef has kind Type")
+ONE_RESULT = "abi.rs closes the block consumed by this instruction with finish_block(1): exactly one block result"
+TWO_RESULTS = "abi.rs closes the MapLift block with finish_block(2): key and value"
+ASYNC_STATUS = ("only called (via emit_allocation_for_type) with the results of wasm_signature(GuestImportAsync), which are "
+                "always the single I32 status code")
+ALIGN = ("every caller passes a canonical-ABI alignment (`.align_wasm32()`, or the maximum of such), which is 1, 2, 4 or 8")
+HOST_OS = ("depends on the host OS of the csproj helper (`std::env::consts::OS`), not on the world; CSProject is only "
+           "used by the test harness, never by the bindings generator")
+OPTION = ("selected only by the non-default generator option --string-encoding compact-utf16 (the property quantifies "
+          "over worlds, not options)")
+LITERALS = "every call passes one of the string literals that have an arm"
+RES = "oracle_max_flat_results+scrut~results"
+BR = "+scrut~block_results"
+FL = "oracle_flags32+scrut~flags\\.repr\\(\\)"
 ALLOW = {
     ("core", "Generator::lower", "Type::Id > TypeDefKind::Resource"): (VALUE_POS, "oracle_own"),
     ("core", "Generator::lift", "Type::Id > TypeDefKind::Resource"): (VALUE_POS, "oracle_own"),
@@ -124,20 +139,19 @@ ALLOW = {
     ("core", "Generator::read_from_memory", "Type::Id > TypeDefKind::Resource"): (VALUE_POS, "oracle_own"),
     ("c", "Return::return_single", "TypeDefKind::Resource"): (VALUE_POS, "oracle_own"),
     ("c", "is_arg_by_pointer", "Type::Id > TypeDefKind::Resource"): (VALUE_POS, "oracle_own"),
-    ("c", "push_ty_name", "Type::Id > TypeDefKind::Record|TypeDefKind::Resource|TypeDefKind::Flags|TypeDefKind::Enum|TypeDefKind::Variant"): ("records, resources, flags, enums and variants always carry a name in WIT and the function returns "
-               "early for named types (`if let Some(name) = &ty.name { return .. }`)", "early_return_on_name"),
-    ("c", "InterfaceGenerator::anonymous_type_type", "body"): ("wit-parser's anon_type_def returns the aliased type for TypeDefKind::Type instead of allocating an "
-               "anonymous typedef, so no anonymous typedef has kind Type", "oracle_anon_type"),
+    ("c", "push_ty_name", "Type::Id > TypeDefKind::Record|TypeDefKind::Resource|TypeDefKind::Flags|TypeDefKind::Enum|"
+                          "TypeDefKind::Variant"): (NAMED_KINDS, "early_return_on_name"),
+    ("c", "InterfaceGenerator::anonymous_type_type", "body"): (ANON_TYPE, "oracle_anon_type"),
     ("c", "InterfaceGenerator::type_resource", "None"): (NO_WORLD_RES, "oracle_no_world_export_types"),
     ("rust", "InterfaceGenerator::type_resource", "Identifier::World"): (NO_WORLD_RES, "oracle_no_world_export_types"),
     ("d", "DInterfaceGenerator::type_resource", "Some > TypeOwner::World"): (NO_WORLD_RES, "oracle_no_world_export_types"),
-    ("c", "InterfaceGenerator::import", "_"): (MULTI, "oracle_max_flat_results+scrut~results"),
-    ("c", "InterfaceGenerator::export", "_"): (MULTI, "oracle_max_flat_results+scrut~results"),
-    ("c", "FunctionBindgen::emit", "Instruction::CallWasm > _"): (MULTI, "oracle_max_flat_results+scrut~results"),
-    ("d", "DInterfaceGenerator::import_func", "_"): (MULTI, "oracle_max_flat_results+scrut~results"),
-    ("d", "DInterfaceGenerator::export_func", "_"): (MULTI, "oracle_max_flat_results+scrut~results"),
-    ("moonbit", "InterfaceGenerator::import", "_"): (MULTI, "oracle_max_flat_results+scrut~results"),
-    ("rust", "InterfaceGenerator::print_export_sig", "_"): (MULTI, "oracle_max_flat_results+scrut~results"),
+    ("c", "InterfaceGenerator::import", "_"): (MULTI, RES),
+    ("c", "InterfaceGenerator::export", "_"): (MULTI, RES),
+    ("c", "FunctionBindgen::emit", "Instruction::CallWasm > _"): (MULTI, RES),
+    ("d", "DInterfaceGenerator::import_func", "_"): (MULTI, RES),
+    ("d", "DInterfaceGenerator::export_func", "_"): (MULTI, RES),
+    ("moonbit", "InterfaceGenerator::import", "_"): (MULTI, RES),
+    ("rust", "InterfaceGenerator::print_export_sig", "_"): (MULTI, RES),
     ("cpp", "FunctionBindgen::emit", "abi::Instruction::Return > _"): (RET_AMT, "return_amt+scrut~^amt$"),
     ("d", "FunctionBindgen::emit", "abi::Instruction::Return > _"): (RET_AMT, "return_amt+scrut~^amt$"),
     ("cpp", "CppInterfaceGenerator::type_builtin", "body"): (DEAD_BUILTIN, "no_caller_type_builtin"),
@@ -145,25 +159,20 @@ ALLOW = {
     ("d", "DInterfaceGenerator::type_builtin", "body"): (DEAD_BUILTIN, "no_caller_type_builtin"),
     ("go", "InterfaceGenerator::type_builtin", "body"): (DEAD_BUILTIN, "no_caller_type_builtin"),
     ("moonbit", "InterfaceGenerator::type_builtin", "body"): (DEAD_BUILTIN, "no_caller_type_builtin"),
-    ("csharp", "FunctionBindgen::emit", "Instruction::ListLift > _"): ("abi.rs closes the ListLift block with finish_block(1): exactly one block result", "block_results:ListLift:1+scrut~block_results"),
-    ("moonbit", "FunctionBindgen::emit", "Instruction::ListLift > _"): ("abi.rs closes the ListLift block with finish_block(1): exactly one block result", "block_results:ListLift:1+scrut~block_results"),
-    ("moonbit", "FunctionBindgen::emit", "Instruction::FixedLengthListLiftFromMemory > _"): ("abi.rs closes the FixedLengthListLiftFromMemory block with finish_block(1)",
-         "block_results:FixedLengthListLiftFromMemory:1+scrut~block_results"),
-    ("moonbit", "FunctionBindgen::emit", "Instruction::MapLift > _"): ("abi.rs closes the MapLift block with finish_block(2): key and value", "block_results:MapLift:2+scrut~block_results"),
-    ("csharp", "FunctionBindgen::get_size_for_type", "_"): ("only called (via emit_allocation_for_type) with the results of wasm_signature(GuestImportAsync), which "
-               "are always the single I32 status code", "csharp_alloc_results"),
-    ("csharp", "FunctionBindgen::get_align_for_type", "_"): ("only called (via emit_allocation_for_type) with the results of wasm_signature(GuestImportAsync), which "
-               "are always the single I32 status code", "csharp_alloc_results"),
-    ("csharp", "dotnet_aligned_array", "_"): ("every caller passes a canonical-ABI alignment (`.align_wasm32()`, or the maximum of such), which is "
-               "1, 2, 4 or 8", "scrut~^required_alignment$"),
-    ("csharp", "CSProjectLLVMBuilder::generate", "_"): ("depends on the host OS of the csproj helper (`std::env::consts::OS`), not on the world; the "
-               "bindings generator never calls it", "scrutinee:std::env::consts::OS"),
-    ("c", "C::finish", "StringEncoding::CompactUTF16"): ("selected only by the non-default generator option --string-encoding compact-utf16 (the property "
-               "quantifies over worlds, not options)", "scrutinee:self.opts.string_encoding"),
-    ("go", "remote_pkg", "_"): ("every call passes one of the string literals that have an arm", "literal_domain:remote_pkg"),
-    ("d", "DInterfaceGenerator::type_flags", "FlagsRepr::_"): (FLAGS32, "oracle_flags32+scrut~flags\\.repr\\(\\)"),
-    ("d", "FunctionBindgen::emit", "abi::Instruction::FlagsLower > FlagsRepr::_"): (FLAGS32, "oracle_flags32+scrut~flags\\.repr\\(\\)"),
-    ("d", "FunctionBindgen::emit", "abi::Instruction::FlagsLift > FlagsRepr::_"): (FLAGS32, "oracle_flags32+scrut~flags\\.repr\\(\\)"),
+    ("csharp", "FunctionBindgen::emit", "Instruction::ListLift > _"): (ONE_RESULT, "block_results:ListLift:1" + BR),
+    ("moonbit", "FunctionBindgen::emit", "Instruction::ListLift > _"): (ONE_RESULT, "block_results:ListLift:1" + BR),
+    ("moonbit", "FunctionBindgen::emit", "Instruction::FixedLengthListLiftFromMemory > _"):
+        (ONE_RESULT, "block_results:FixedLengthListLiftFromMemory:1" + BR),
+    ("moonbit", "FunctionBindgen::emit", "Instruction::MapLift > _"): (TWO_RESULTS, "block_results:MapLift:2" + BR),
+    ("csharp", "FunctionBindgen::get_size_for_type", "_"): (ASYNC_STATUS, "csharp_alloc_results"),
+    ("csharp", "FunctionBindgen::get_align_for_type", "_"): (ASYNC_STATUS, "csharp_alloc_results"),
+    ("csharp", "dotnet_aligned_array", "_"): (ALIGN, "scrut~^required_alignment$"),
+    ("csharp", "CSProjectLLVMBuilder::generate", "_"): (HOST_OS, "scrutinee:std::env::consts::OS+csproj_only_tests"),
+    ("c", "C::finish", "StringEncoding::CompactUTF16"): (OPTION, "scrutinee:self.opts.string_encoding"),
+    ("go", "remote_pkg", "_"): (LITERALS, "literal_domain:remote_pkg"),
+    ("d", "DInterfaceGenerator::type_flags", "FlagsRepr::_"): (FLAGS32, FL),
+    ("d", "FunctionBindgen::emit", "abi::Instruction::FlagsLower > FlagsRepr::_"): (FLAGS32, FL),
+    ("d", "FunctionBindgen::emit", "abi::Instruction::FlagsLift > FlagsRepr::_"): (FLAGS32, FL),
 }
 UNKNOWN = ("TypeDefKind::Unknown only exists while a package is being resolved (wit-parser panics 'unknown type "
            "after defined type' / unreachable!() in update_typedef); a completed Resolve has none")
@@ -413,166 +422,127 @@ class Unknown(Exception):
     pass
 
 
+class NeedChoice(Exception):
+    pass
+
+
+class Ret(Exception):
+    def __init__(self, v):
+        self.v = v
+
+
 def eval_sfv(fn, name, async_, ec):
-    """Abstractly run should_fail_verify(name, config{async_, error_context}).  Unknown conditions (runner state)
-    make the result the conjunction of both outcomes: a test is *declared* failing only if it fails either way."""
-    pnames = fn.params
+    """Abstractly run should_fail_verify(name, config{async_, error_context}).  A condition that depends on anything
+    else (the runner's toolchain probe, arguments) is a free boolean: the function is run once per assignment, and
+    the test counts as *declared failing* only if every run returns true."""
 
-    def ev(e):
-        k = e.get("k")
-        if k == "bool":
-            return e["v"]
-        if k == "str":
-            return e["v"]
-        if k == "path":
-            if e["path"] == "name":
-                return name
-            raise Unknown(render(e))
-        if k == "field":
-            r = render(e)
-            if r == "config.async_":
-                return async_
-            if r == "config.error_context":
-                return ec
-            raise Unknown(r)
-        if k == "unary" and e["op"] == "!":
-            return not ev(e["e"])
-        if k == "binary":
-            op = e["op"]
-            if op == "||":
-                try:
-                    l = ev(e["l"])
-                except Unknown:
-                    l = None
-                if l is True:
-                    return True
-                try:
-                    r = ev(e["r"])
-                except Unknown:
-                    r = None
-                if r is True:
-                    return True
-                if l is None or r is None:
-                    raise Unknown(render(e))
-                return False
-            if op == "&&":
-                try:
-                    l = ev(e["l"])
-                except Unknown:
-                    l = None
-                if l is False:
-                    return False
-                try:
-                    r = ev(e["r"])
-                except Unknown:
-                    r = None
-                if r is False:
-                    return False
-                if l is None or r is None:
-                    raise Unknown(render(e))
+    def run(choices):
+        used = [0]
+
+        def choose():
+            i = used[0]
+            used[0] += 1
+            if i >= len(choices):
+                raise NeedChoice()
+            return choices[i]
+
+        def boolean(e):
+            try:
+                v = ev(e)
+            except Unknown:
+                return choose()
+            return v if isinstance(v, bool) else choose()
+
+        def ev(e):
+            k = e.get("k")
+            if k in ("bool", "str"):
+                return e["v"]
+            if k == "path":
+                if e["path"] == "name":
+                    return name
+                raise Unknown(render(e))
+            if k == "field":
+                r = render(e)
+                if r == "config.async_":
+                    return async_
+                if r == "config.error_context":
+                    return ec
+                raise Unknown(r)
+            if k == "unary" and e["op"] == "!":
+                return not boolean(e["e"])
+            if k == "binary" and e["op"] in ("||", "&&"):
+                l = boolean(e["l"])
+                if e["op"] == "||":
+                    return True if l else boolean(e["r"])
+                return boolean(e["r"]) if l else False
+            if k == "binary" and e["op"] in ("==", "!="):
+                eq = ev(e["l"]) == ev(e["r"])
+                return eq if e["op"] == "==" else not eq
+            if k == "mcall" and e["method"] in ("starts_with", "ends_with", "contains") and len(e["args"]) == 1:
+                x, y = ev(e["recv"]), ev(e["args"][0])
+                if isinstance(x, str) and isinstance(y, str):
+                    return {"starts_with": x.startswith, "ends_with": x.endswith, "contains": x.__contains__}[e["method"]](y)
+                raise Unknown(render(e))
+            if k == "macro" and synq.short(e["name"]) == "matches" and "pat" in e:
+                return pat(e["pat"], ev(e["expr"])) and ("guard" not in e or boolean(e["guard"]))
+            if k == "match":
+                v = ev(e["scrut"])
+                for a in e["arms"]:
+                    if pat(a["pat"], v) and ("guard" not in a or boolean(a["guard"])):
+                        return ev(a["body"])
+                raise Unknown("no arm")
+            if k == "block":
+                return stmts(e["stmts"])
+            if k == "if":
+                if boolean(e["cond"]):
+                    return ev(e["then"])
+                return ev(e["else"]) if e.get("else") else None
+            if k == "return":
+                raise Ret(boolean(e["e"]))
+            if k == "ref":
+                return ev(e["e"])
+            raise Unknown(render(e)[:60])
+
+        def pat(p, v):
+            k = p.get("k")
+            if k in ("p_wild", "p_ident"):
                 return True
-            if op == "==":
-                return ev(e["l"]) == ev(e["r"])
-            if op == "!=":
-                return ev(e["l"]) != ev(e["r"])
-            raise Unknown(render(e))
-        if k == "mcall" and e["method"] in ("starts_with", "ends_with", "contains") and len(e["args"]) == 1:
-            a, b = ev(e["recv"]), ev(e["args"][0])
-            if isinstance(a, str) and isinstance(b, str):
-                return {"starts_with": a.startswith, "ends_with": a.endswith, "contains": a.__contains__}[e["method"]](b)
-            raise Unknown(render(e))
-        if k == "macro" and synq.short(e["name"]) == "matches" and "pat" in e:
-            return pat(e["pat"], ev(e["expr"])) and ("guard" not in e or ev(e["guard"]))
-        if k == "match":
-            v = ev(e["scrut"])
-            for a in e["arms"]:
-                if pat(a["pat"], v) and ("guard" not in a or ev(a["guard"])):
-                    return ev(a["body"])
-            raise Unknown("no arm")
-        if k == "block":
-            return block(e)
-        if k == "if":
-            c = ev(e["cond"])
-            if c:
-                return block(e["then"])
-            if e.get("else"):
-                return ev(e["else"])
-            return None
-        if k == "return":
-            raise Ret(ev(e["e"]))
-        if k == "ref":
-            return ev(e["e"])
-        raise Unknown(render(e)[:60])
+            if k == "p_lit":
+                return p["lit"].get("v") == v
+            if k == "p_or":
+                return any(pat(c, v) for c in p["cases"])
+            raise Unknown("pattern " + str(k))
 
-    def pat(p, v):
-        k = p.get("k")
-        if k == "p_wild":
-            return True
-        if k == "p_lit":
-            return p["lit"].get("v") == v
-        if k == "p_or":
-            return any(pat(c, v) for c in p["cases"])
-        if k == "p_ident":
-            return True
-        raise Unknown("pattern " + str(k))
-
-    class Ret(Exception):
-        def __init__(self, v):
-            self.v = v
-
-    def block(b):
-        """value of a block; an `if` with an unknown condition forks: both continuations must agree (else Unknown
-        unless both are True/False-consistent under conjunction)."""
-        return stmts(b["stmts"], 0)
-
-    def stmts(ss, i):
-        last = None
-        while i < len(ss):
-            s = ss[i]
-            if s["k"] == "expr_stmt":
-                e = s["e"]
-                if e.get("k") == "if":
-                    try:
-                        c = ev(e["cond"])
-                    except Unknown:
-                        # fork: condition true -> then-branch then the rest; false -> else-branch then the rest
-                        outs = []
-                        for br in (e["then"], e.get("else")):
-                            try:
-                                if br is not None:
-                                    v = ev(br) if br.get("k") != "block" else block(br)
-                                else:
-                                    v = None
-                                if v is None or (s.get("semi") and i + 1 < len(ss)):
-                                    v = stmts(ss, i + 1)
-                                outs.append(v)
-                            except Ret as r:
-                                outs.append(r.v)
-                        if all(o is True for o in outs):
-                            raise Ret(True)
-                        raise Ret(False)  # not certainly failing
-                    br = e["then"] if c else e.get("else")
-                    v = None
-                    if br is not None:
-                        v = block(br) if br.get("k") == "block" else ev(br)
-                    last = v
-                else:
-                    last = ev(e)
+        def stmts(ss):
+            last = None
+            for s in ss:
+                if s["k"] != "expr_stmt":
+                    raise Unknown(s["k"])
+                last = ev(s["e"])
                 if s.get("semi"):
                     last = None
-            elif s["k"] == "let":
-                raise Unknown("let")
-            i += 1
-        return last
+            return last
 
-    try:
         try:
-            v = block(fn.body)
+            v = stmts(fn.body["stmts"])
         except Ret as r:
             v = r.v
-    except Unknown:
-        return False  # cannot show the test is declared failing
-    return v is True
+        return v if isinstance(v, bool) else choose()
+
+    todo, n = [[]], 0
+    while todo:
+        ch = todo.pop()
+        n += 1
+        if n > 64:
+            return False
+        try:
+            if run(ch) is not True:
+                return False
+        except NeedChoice:
+            todo += [ch + [True], ch + [False]]
+        except Unknown:
+            return False  # cannot show the test is declared failing
+    return True
 
 
 class Exclusions:
@@ -989,6 +959,16 @@ class Verify:
                     hits.append(f"{rel}:{synq.line(n)}")
         return not hits, f"uses of type_builtin: {hits}"
 
+    def csproj_only_tests(self):
+        hits = []
+        for rel in synq.files():
+            if rel == "crates/csharp/src/csproj.rs" or rel.startswith("crates/test/"):
+                continue
+            for n in synq.walk(synq.load(rel)):
+                if n.get("k") in ("path", "struct") and "CSProject" in n.get("path", ""):
+                    hits.append(f"{rel}:{synq.line(n)}")
+        return not hits, f"uses of CSProject outside csproj.rs and crates/test: {hits}"
+
     def return_amt(self):
         bad = []
         n = 0
@@ -1128,7 +1108,7 @@ def run(rep, tier):
             ok, how = excl.declared(lang, feat)
             if ok:
                 declared[(lang, feat)] = how
-    rep.floor("R16.2", "(backend, feature) pairs declared unsupported", len(declared), 13)
+    rep.floor("R16.2", "(backend, feature) pairs declared unsupported", len(declared), 16)
     rep.extra["declared_unsupported"] = {f"{l}:{f}": h for (l, f), h in sorted(declared.items())}
     for lang in TEST_LANGS:
         rep.ob("R16.2", f"{lang}: should_fail_verify evaluates (declares {sorted(f for (l, f) in declared if l == lang)})",
@@ -1258,25 +1238,36 @@ def run(rep, tier):
             rep.ob("R16.1", inst, ok, f"allow-listed: {al[0]} [{det}]", s.loc())
             return
         trig = site_triggers(s, b)
-        open_, notes = [], []
+        multi = bool(s.chain) and s.key3 not in SITE_FEATURES and s.key3 not in SITE_CORE and \
+            (len(s.chain[-1].heads) > 1 or "_" in s.chain[-1].heads)
+        groups = {}  # label -> (ok, [details])
         byfeat = {}
         for kind, what, det in trig:
             if kind == "unreachable":
-                notes.append(f"{what}: unreachable ({det})")
+                groups.setdefault("unreachable", [True, []])[1].append(f"{what}: {det}")
             elif kind == "feature":
                 byfeat.setdefault(what, []).append(det)
             elif kind == "core":
-                open_.append(f"{what}: {det}")
+                groups.setdefault(what, [False, []])[1].append(det)
             else:
-                open_.append(f"unclassified gap ({what}): {det}")
+                groups.setdefault(f"unclassified {what}", [False, []])[1].append(f"unclassified gap: {det}")
         for feat, dets in byfeat.items():
             ok, how = excl.declared(b, feat)
             src = ", ".join(dict.fromkeys(dets))
             if ok:
-                notes.append(f"{src} => `{feat}` declared unsupported for {b} ({how})")
+                groups[f"feature {feat}"] = [True, [f"{src} => `{feat}` declared unsupported for {b} ({how})"]]
             else:
-                open_.append(f"{src} => feature `{feat}` ({FEATURES[feat]['what']}) is NOT declared unsupported for {b}: {how}")
-        rep.ob("R16.1", inst, not open_, (pre + "; ".join(open_ if open_ else notes))[:1500], s.loc())
+                groups[f"feature {feat}"] = [False, [f"{src} => feature `{feat}` ({FEATURES[feat]['what']}) is NOT declared "
+                                                     f"unsupported for {b}: {how}"]]
+        if not multi:
+            bad = [d for ok, ds in groups.values() if not ok for d in ds]
+            good = [d for ok, ds in groups.values() if ok for d in ds]
+            rep.ob("R16.1", inst, not bad, (pre + "; ".join(bad if bad else good))[:1500], s.loc())
+            return
+        # a wildcard / multi-head arm: one obligation per trigger group, so that a new residual variant is not
+        # hidden behind an already known one
+        for label, (ok, ds) in groups.items():
+            rep.ob("R16.1", f"{inst} [{label}]", ok, (pre + "; ".join(ds))[:1500], s.loc())
 
     # core sites are judged once per backend that can reach them
     def core_reach(s, b):
